@@ -61,6 +61,27 @@ pub fn field_zoo(f: &Fld) -> Vec<Tagged> {
     push((&r * &r) % p, "R^2");
     push(f.inv(&r).unwrap(), "R^-1");
     push(f.neg(&r), "-R");
+    // values whose *Montgomery representation* v*R mod p has a structured limb (all-ones / zero
+    // 32- and 64-bit limbs, all other limbs random-looking): carries and borrows inside the
+    // word-by-word backends depend on the internal form, not on the canonical value
+    {
+        let rinv = f.inv(&r).unwrap();
+        let n32 = (f.bits + 31) / 32;
+        let filler = (&r * b(0x9E37_79B9_7F4A_7C15) + b(0x1234_5678_9ABC_DEF1)) % p; // fixed pseudo-random fill
+        for pos in 0..n32 {
+            for width in [32usize, 64] {
+                if width == 64 && pos % 2 == 1 {
+                    continue;
+                }
+                let mask = ((b(1) << width) - b(1)) << (32 * pos);
+                let ones = (&filler | &mask) % p;
+                let zeros = (&filler & ((b(1) << (32 * n32)) - b(1) - &mask)) % p;
+                for m in [ones, zeros] {
+                    push(f.mul(&m, &rinv), "montgomery-limb-pattern");
+                }
+            }
+        }
+    }
     // roots of unity of every order 2^k
     let g = {
         // a generator of the 2-Sylow subgroup: nonresidue^t
@@ -145,7 +166,47 @@ pub fn scalar_int_zoo(r: &B) -> Vec<Tagged> {
     z.push((b(1) << 320, "long"));
     z.push(((b(1) << 512) - b(1), "long"));
     z.push((r * r, "long"));
+    // beyond 8 limbs (512 bits): 9..=12 limbs, dense and sparse
+    z.push((b(1) << 512, "very-long"));
+    z.push(((b(1) << 512) + b(3), "very-long"));
+    z.push(((b(1) << 576) - b(1), "very-long"));
+    z.push((b(1) << 640, "very-long"));
+    z.push(((b(1) << 768) - b(1), "very-long"));
+    z.push((r * r * r, "very-long"));
+    z.push(((r * r) << 256, "very-long"));
     z
+}
+
+/// Values at every distance scale from a threshold `t`: t +- 2^k, t +- (2^k +- 2), t +- random
+/// k-bit offsets, and offsets whose low 64-bit limbs wrap (2^64*j - small). Multi-limb
+/// comparisons against `t` are decided by different limbs for different distances, so this sweep
+/// drives every branch of a limb-wise `>=`.
+pub fn threshold_sweep(t: &B, bits: usize, rng: &mut impl RngCore, per_scale: usize) -> Vec<B> {
+    let mut out = Vec::new();
+    for k in 0..bits {
+        let pw = b(1) << k;
+        let mut deltas = vec![pw.clone(), &pw + b(2), &pw + b(1)];
+        if k > 1 {
+            deltas.push(&pw - b(2));
+            deltas.push(&pw - b(1));
+        }
+        for _ in 0..per_scale {
+            deltas.push(rand_below(rng, &pw) + &pw);
+        }
+        if k % 64 == 0 && k > 0 {
+            for j in [2u64, 4, 6, 8, 1, 3] {
+                deltas.push(&pw - b(j));
+                deltas.push((&pw * b(j)) - b(2));
+            }
+        }
+        for d in deltas {
+            out.push(t + &d);
+            if &d <= t {
+                out.push(t - &d);
+            }
+        }
+    }
+    out
 }
 
 /// Byte-string zoo around a modulus of `nbytes` canonical bytes.
@@ -165,6 +226,11 @@ pub fn bytes_zoo(f: &Fld, rng: &mut impl RngCore, nrand: usize) -> Vec<(Vec<u8>,
     }
     for d in [0u64, 1, 2] {
         z.push((to_le(&(p - b(1) + b(d)), n), "p-1,p,p+1"));
+    }
+    for v in threshold_sweep(p, f.bits - 1, rng, 1) {
+        if fits(&v) {
+            z.push((to_le(&v, n), "p+-delta"));
+        }
     }
     z.push((to_le(&(b(1) << f.bits), n), "2^bits"));
     if f.bits < 8 * n {
@@ -271,4 +337,30 @@ pub fn lambdas(c: &Curve, rng: &mut impl RngCore, nrand: usize) -> Vec<B> {
         v.push(l);
     }
     v
+}
+
+/// field values v whose Montgomery representation has 32-bit limb `pos` equal to 0xffffffff
+/// (`ones`) or 0, the other limbs random
+pub fn montgomery_limb_values(f: &Fld, rng: &mut impl RngCore, per_pos: usize) -> Vec<B> {
+    let n64 = (f.bits + 63) / 64;
+    let n32 = (f.bits + 31) / 32;
+    let r = (b(1) << (64 * n64)) % &f.p;
+    let rinv = f.inv(&r).unwrap();
+    let mut out = Vec::new();
+    for pos in 0..n32 {
+        for _ in 0..per_pos {
+            for width in [32usize, 64] {
+                if width == 64 && (pos % 2 == 1 || pos + 2 > n32) {
+                    continue;
+                }
+                let mask = ((b(1) << width) - b(1)) << (32 * pos);
+                let fill = rand_below(rng, &f.p);
+                let m1 = (&fill | &mask) % &f.p;
+                let m0 = (&fill & ((b(1) << (32 * n32)) - b(1) - &mask)) % &f.p;
+                out.push(f.mul(&m1, &rinv));
+                out.push(f.mul(&m0, &rinv));
+            }
+        }
+    }
+    out
 }
